@@ -236,7 +236,7 @@ func streamSync(stream *DataStreamReader) bool {
 //@   requires stream.fd != nil && stream.rbuf != nil && mcConfOK() && fileSize(stream.fd) <= 1<<32-512
 //@   requires int(stream.offset)%256 == 0 && streamSync(stream)
 //@   requires len(stream.maxBodyBuf) == 0 && int64(cap(stream.maxBodyBuf)) >= config.MCConf.BodyMax
-//@   modifies ghostScanEnd[ghostStreamChunk(stream)], stream.offset, elems(stream.maxBodyBuf), ghostFilePos(stream.fd), ghostReader(stream.rbuf), ghostFail(), cmem.DBRL.GetData.Size, cmem.DBRL.GetData.MaxSize, cmem.DBRL.GetData.Count, cmem.DBRL.GetData.MaxCount, cmem.AllocRL.Size, cmem.AllocRL.MaxSize, cmem.AllocRL.Count, cmem.AllocRL.MaxCount
+//@   modifies ghostScanCount, ghostScanEnd[ghostStreamChunk(stream)], stream.offset, elems(stream.maxBodyBuf), ghostFilePos(stream.fd), ghostReader(stream.rbuf), ghostFail(), cmem.DBRL.GetData.Size, cmem.DBRL.GetData.MaxSize, cmem.DBRL.GetData.Count, cmem.DBRL.GetData.MaxCount, cmem.AllocRL.Size, cmem.AllocRL.MaxSize, cmem.AllocRL.Count, cmem.AllocRL.MaxCount
 //@   ghost after getCRC#1: lemmaFoldFile(^uint32(0), wrec.header[4:], stream.fd, int(stream.offset)+4, 20)
 //@   ghost after getCRC#1: lemmaFoldFile(specCRCFold(^uint32(0), wrec.header[4:], 20), wrec.rec.Key, stream.fd, int(stream.offset)+24, len(wrec.rec.Key))
 //@   ghost after getCRC#1: lemmaFoldFile(specCRCFold(specCRCFold(^uint32(0), wrec.header[4:], 20), wrec.rec.Key, len(wrec.rec.Key)), wrec.rec.Payload.Body, stream.fd, int(stream.offset)+24+len(wrec.rec.Key), len(wrec.rec.Payload.Body))
@@ -250,6 +250,8 @@ func streamSync(stream *DataStreamReader) bool {
 //@   ensures res == nil && err == nil && !ioFailed() ==> forall(old(int(stream.offset)), fileSize(stream.fd), func(o int) bool { return o%256 != 0 || !specValidAt(stream.fd, o) })
 //@   ensures [assumed] res == nil && !ioFailed() ==> ghostScanEnd[ghostStreamChunk(stream)]      // ghost protocol state of the GC pass (verif_contracts_gcloop.go): the scan of this chunk's file is complete
 //@   ensures [assumed] res != nil ==> ghostScanEnd[ghostStreamChunk(stream)] == old(ghostScanEnd[ghostStreamChunk(stream)])
+//@   ensures [assumed] res != nil ==> ghostScanCount == old(ghostScanCount)+1      // ghost counter of the restart replay (verif_contracts_restart.go): one more record delivered
+//@   ensures [assumed] res == nil ==> ghostScanCount == old(ghostScanCount)
 //@   ensures int(sizeBroken) <= int(offset)
 //@   ensures res != nil && fileSize(stream.fd)%256 == 0 ==> int(stream.offset) <= fileSize(stream.fd)
 //@   ensures res != nil ==> int(stream.offset) == int(offset)+int(specPadded(uint32(24+len(res.Key)+len(res.Payload.Body)))) && len(res.Key) <= 255 && len(res.Payload.Body) < 1<<31
